@@ -7,6 +7,10 @@
 //	proxy <recv> <clientDial> <variant> => <status> <dialed|-> <piped> <fwd> <back>
 //	  recv: bad | me:<client> | other:<client> | nil:<client>
 //	e2e <H hex> <alpn> <client> <clientDial> <linkFails> => <outcome> <dialedByRemote|-> <gotLinkHost|->
+//	reset                                   a fresh server (empty route cache): start of a sequence of visits
+//	visit <H hex> <alpn> <slot0..2> <env0..2> <visitor> <cls> => <outcome> <tried> <closed> <got> kv=<KV Gets made>
+//	  visitor: l live request context | g context already cancelled / past its deadline when DialClient is
+//	           called | t context cancelled while the KV lookups for H are in flight (if there are any)
 package main
 
 import (
@@ -20,6 +24,7 @@ import (
 	"strconv"
 	"strings"
 	"sync"
+	"sync/atomic"
 	"time"
 
 	"go.miragespace.co/specter/spec/chord"
@@ -127,15 +132,38 @@ type fakeTransport struct {
 
 func (t *fakeTransport) Identity() *protocol.Node { return t.id }
 func (t *fakeTransport) DialStream(ctx context.Context, peer *protocol.Node, kind protocol.Stream_Type) (net.Conn, error) {
-	return t.dial(peer, kind)
+	c, err := t.dial(peer, kind)
+	// like a real transport: nothing is opened on behalf of a caller whose context is done
+	if cerr := ctx.Err(); cerr != nil {
+		if c != nil {
+			if fc, ok := c.(*fakeConn); ok {
+				fc.onClose = nil // not a connection the code under test ever saw
+			}
+			c.Close()
+		}
+		return nil, cerr
+	}
+	return c, err
 }
 
 type fakeVNode struct {
 	*mocks.VNode
-	get func(key string) ([]byte, error)
+	get   func(key string) ([]byte, error)
+	gets  atomic.Int64 // number of Get calls that reached the KV
+	onGet func()       // runs while a Get is in flight
 }
 
-func (n *fakeVNode) Get(ctx context.Context, key []byte) ([]byte, error) { return n.get(string(key)) }
+func (n *fakeVNode) Get(ctx context.Context, key []byte) ([]byte, error) {
+	n.gets.Add(1)
+	if f := n.onGet; f != nil {
+		f()
+	}
+	// like a real KV client: a lookup made under a context that is done fails with the context error
+	if err := ctx.Err(); err != nil {
+		return nil, err
+	}
+	return n.get(string(key))
+}
 
 // ---------- case description ----------
 
@@ -266,6 +294,7 @@ type world struct {
 	events []string
 	closed []string
 	srv    *server.Server
+	kv     *fakeVNode
 	// second server ("B"): the remote side of proxy streams
 	b          *server.Server
 	bTun       *fakeTransport
@@ -371,6 +400,7 @@ func newWorld() *world {
 			c.onClose = onClose
 			return c, nil
 		}}
+	w.kv = kv
 	w.srv = server.New(server.Config{
 		ParentContext:   context.Background(),
 		Logger:          zap.NewNop(),
@@ -459,7 +489,8 @@ func classify(c *dcase) string {
 	}
 }
 
-func (w *world) runDial(r *hlib.Run, c *dcase) {
+// one real DialClient call for case c under the visitor's context
+func (w *world) dialOnce(ctx context.Context, c *dcase) (out, tried, closed, got string) {
 	w.mu.Lock()
 	w.cases[c.host] = c
 	w.events, w.closed = nil, nil
@@ -475,9 +506,9 @@ func (w *world) runDial(r *hlib.Run, c *dcase) {
 				panicked = true
 			}
 		}()
-		conn, err = w.srv.DialClient(context.Background(), link)
+		conn, err = w.srv.DialClient(ctx, link)
 	}()
-	out, got := errTok(err), "-"
+	out, got = errTok(err), "-"
 	if panicked {
 		out = "panic"
 	} else if err == nil {
@@ -506,8 +537,13 @@ func (w *world) runDial(r *hlib.Run, c *dcase) {
 		}
 	}
 	w.mu.Lock()
-	tried, closed := hlib.Join(w.events, ","), hlib.Join(w.closed, ",")
+	tried, closed = hlib.Join(w.events, ","), hlib.Join(w.closed, ",")
 	w.mu.Unlock()
+	return
+}
+
+func (w *world) runDial(r *hlib.Run, c *dcase) {
+	out, tried, closed, got := w.dialOnce(context.Background(), c)
 	cls := classify(c)
 	lhs := "dial " + hlib.HexS(c.host) + " " + strconv.Itoa(c.alpn) + " " + strings.Join(c.slots[:], " ") + " " +
 		c.envs[0].tok() + " " + c.envs[1].tok() + " " + c.envs[2].tok() + " " + cls
@@ -519,6 +555,78 @@ func (w *world) runDial(r *hlib.Run, c *dcase) {
 	r.Case(key)
 	r.Count(cls)
 	r.Count("outcome:" + strings.SplitN(out, ":", 2)[0])
+}
+
+// ---------- sequences of visitors against one server (route cache, visitor contexts) ----------
+
+const visitCaseBudget = 2 * time.Second // far below the shortest route cache TTL (5 s, failed lookups)
+
+// A visit is one DialClient call of a sequence made against the same server, under the visitor's own
+// request context: "l" stays alive, "g" is already cancelled (or past its deadline) when DialClient is
+// called, "t" is cancelled while the KV lookups for the hostname are in flight (a visitor that goes
+// away in the middle; nothing happens to it when the call needs no lookup).
+// The model knows nothing about time: a visit is only reported when it completed well within the
+// shortest cache TTL after the sequence began (false = the rest of the sequence must be dropped).
+func (w *world) runVisit(r *hlib.Run, c *dcase, vis string, hist string, start time.Time) bool {
+	ctx, cancel := context.WithCancel(context.Background())
+	defer cancel()
+	switch vis {
+	case "g":
+		if c.envs[0].variant%2 == 0 {
+			cancel()
+		} else {
+			var dcancel context.CancelFunc
+			ctx, dcancel = context.WithDeadline(context.Background(), time.Now().Add(-time.Second))
+			defer dcancel()
+		}
+	case "t":
+		w.kv.onGet = cancel
+	}
+	w.kv.gets.Store(0)
+	out, tried, closed, got := w.dialOnce(ctx, c)
+	w.kv.onGet = nil
+	gets := w.kv.gets.Load()
+	if time.Since(start) > visitCaseBudget {
+		r.Raw("# sequence abandoned: too slow for the time-free cache model")
+		r.Count("visit:abandoned")
+		return false
+	}
+	cls := classify(c)
+	lhs := "visit " + hlib.HexS(c.host) + " " + strconv.Itoa(c.alpn) + " " + strings.Join(c.slots[:], " ") + " " +
+		c.envs[0].tok() + " " + c.envs[1].tok() + " " + c.envs[2].tok() + " " + vis + " " + cls
+	r.Emit(lhs, out+" "+tried+" "+closed+" "+got+" kv="+strconv.FormatInt(gets, 10))
+	r.Case("visit " + strings.Join(c.slots[:], " ") + c.envs[0].tok() + c.envs[1].tok() + c.envs[2].tok() + " " + hist)
+	r.Count("visit:" + vis)
+	r.Count("visit:" + vis + ":" + cls)
+	r.Count("visit-outcome:" + vis + ":" + strings.SplitN(out, ":", 2)[0])
+	return true
+}
+
+type vstep struct {
+	host int // which of the sequence's hostnames
+	vis  string
+	envs [3]env
+}
+
+// a sequence of visits: one or two hostnames whose KV content stays the same throughout
+type vcase struct {
+	hosts []string
+	alpn  int
+	slots [][3]string
+	steps []vstep
+}
+
+func (w *world) runVisitCase(r *hlib.Run, vc *vcase) {
+	r.Raw("reset")
+	start := time.Now()
+	hist := ""
+	for _, st := range vc.steps {
+		c := &dcase{host: vc.hosts[st.host], alpn: vc.alpn, slots: vc.slots[st.host], envs: st.envs}
+		hist += strconv.Itoa(st.host) + st.vis
+		if !w.runVisit(r, c, st.vis, hist, start) {
+			return
+		}
+	}
 }
 
 // ---------- proxy (remote side) ----------
@@ -748,11 +856,12 @@ func slotOptions() []slotOpt {
 
 func main() {
 	r := hlib.Start()
-	r.Rule = "dial: 3 lookup slots x per-route behaviour, ALL 16^3 combinations of {empty, lookup error, undecodable, local x {ok, link-send fails, no-direct, hard error}, remote x {dial error, dial no-direct, route-send fails, status unreadable, status OK, OK+link fails, UNKNOWN_ERROR, NO_DIRECT, unknown code}} with randomised client ids / error flavours / hostnames, plus cache-hit re-dials; proxy: every received-frame kind x client dial result x flavour; e2e: gateway -> real remote handleProxyConn. non-trivial = a case where at least one route is dialled, or no lookup returned a route while the lookups disagree (absent / failed / undecodable mixed: the loader's empty route list)"
+	r.Rule = "dial: 3 lookup slots x per-route behaviour, ALL 16^3 combinations of {empty, lookup error, undecodable, local x {ok, link-send fails, no-direct, hard error}, remote x {dial error, dial no-direct, route-send fails, status unreadable, status OK, OK+link fails, UNKNOWN_ERROR, NO_DIRECT, unknown code}} with randomised client ids / error flavours / hostnames, plus cache-hit re-dials; visit: sequences of 2-5 DialClient calls against one server for 1-2 hostnames with fixed KV content, each visitor's request context live / already cancelled or expired / cancelled while the KV lookups are in flight, per-visit dial behaviour (every slot option x position x neighbour x first-visitor kind, plus random sequences), observing outcome, dial trace and the number of KV Gets (route cache hit/miss); proxy: every received-frame kind x client dial result x flavour; e2e: gateway -> real remote handleProxyConn. non-trivial = a case where at least one route is dialled, or no lookup returned a route while the lookups disagree (absent / failed / undecodable mixed: the loader's empty route list)"
 	rng := hlib.NewRng(r.Seed)
 	w := newWorld()
 
 	if r.Replay != "" {
+		vstart, vhist := time.Now(), ""
 		for _, t := range r.ReplayLines() {
 			switch t[0] {
 			case "dial":
@@ -763,6 +872,19 @@ func main() {
 					c.envs[i] = parseEnv(t[6+i])
 				}
 				w.runDial(r, c)
+			case "reset":
+				w = newWorld()
+				r.Raw("reset")
+				vstart, vhist = time.Now(), ""
+			case "visit":
+				c := &dcase{host: string(hlib.UnHex(t[1]))}
+				c.alpn, _ = strconv.Atoi(t[2])
+				copy(c.slots[:], t[3:6])
+				for i := 0; i < 3; i++ {
+					c.envs[i] = parseEnv(t[6+i])
+				}
+				vhist += t[1] + t[9]
+				w.runVisit(r, c, t[9], vhist, vstart)
 			case "proxy":
 				v, _ := strconv.Atoi(t[3])
 				w.runProxy(r, t[1], t[2], v)
@@ -823,6 +945,92 @@ func main() {
 			}
 		}
 	}
+	// ---- sequences of visitors against one server: the route cache and the visitors' own contexts.
+	// The KV content of a hostname stays the same during a sequence; what changes is who asks (live,
+	// already gone, leaving during the lookup) and how the world answers the dials.
+	hostPats := []string{"v%d.example.com", "V%d.Example.COM", "xn--%d-bcher.example", "%d", "a.b.c.d.%d.hello.com"}
+	var vw *world
+	nvw := 0
+	runSeq := func(vc *vcase) {
+		if nvw%128 == 0 {
+			vw = newWorld() // route cache stays far below its capacity: no evictions
+		}
+		nvw++
+		vw.runVisitCase(r, vc)
+	}
+	stepEnvs := func(slots [3]string, base [3]env, keep bool) [3]env {
+		var e [3]env
+		for i := 0; i < 3; i++ {
+			e[i] = base[i]
+			if !keep && slots[i][0] == 'L' {
+				e[i] = hlib.Pick(rng, localEnvs)
+			} else if !keep && slots[i][0] == 'R' {
+				e[i] = hlib.Pick(rng, remoteEnvs)
+			}
+			e[i].variant = rng.Intn(12)
+		}
+		return e
+	}
+	newHost := func(vc *vcase, o [3]slotOpt) [3]env {
+		dc := mk(o)
+		vc.hosts = append(vc.hosts, fmt.Sprintf(hlib.Pick(rng, hostPats), n))
+		vc.slots = append(vc.slots, dc.slots)
+		return dc.envs
+	}
+	eOpt := slotOpt{kind: 'E'}
+	// (a) every slot option in every position, alone and next to a healthy local route; the first visitor is
+	// gone / leaves during the lookup / is live, then a live one and the other kinds follow
+	for _, a := range opts {
+		for pos := 0; pos < 3; pos++ {
+			for _, other := range []slotOpt{eOpt, {kind: 'L', e: localEnvs[0]}, {kind: 'X'}} {
+				for _, first := range []string{"g", "t", "l"} {
+					o := [3]slotOpt{other, other, other}
+					o[pos] = a
+					if other.kind == 'L' {
+						o[(pos+1)%3] = eOpt
+					}
+					vc := &vcase{alpn: rng.Intn(4)}
+					base := newHost(vc, o)
+					for _, v := range []string{first, "l", "t", "g", "l"} {
+						vc.steps = append(vc.steps, vstep{0, v, stepEnvs(vc.slots[0], base, true)})
+					}
+					runSeq(vc)
+				}
+			}
+		}
+	}
+	// (b) random sequences over one or two hostnames
+	nseq := 1500
+	if r.Thorough() {
+		nseq = 12000
+	}
+	for i := 0; i < nseq; i++ {
+		vc := &vcase{alpn: rng.Intn(4)}
+		var bases [][3]env
+		for h := 0; h < 1+rng.Intn(2); h++ {
+			var o [3]slotOpt
+			for j := range o {
+				o[j] = hlib.Pick(rng, opts)
+				if rng.Intn(3) == 0 {
+					o[j] = eOpt
+				}
+			}
+			bases = append(bases, newHost(vc, o))
+		}
+		for k := 2 + rng.Intn(4); k > 0; k-- {
+			h := rng.Intn(len(vc.hosts))
+			v := "l"
+			switch x := rng.Intn(100); {
+			case x < 30:
+				v = "g"
+			case x < 55:
+				v = "t"
+			}
+			vc.steps = append(vc.steps, vstep{h, v, stepEnvs(vc.slots[h], bases[h], rng.Intn(2) == 0)})
+		}
+		runSeq(vc)
+	}
+
 	pv := 8
 	if r.Thorough() {
 		pv = 48
